@@ -398,6 +398,20 @@ def patch_pools():
 
     multiprocessing.pool.ThreadPool = ModelPool
     catii.xcubes.xcube.pool_class = ModelPool
+    _rebind(ModelPool)
+
+
+def _rebind(pool):
+    """Also cover `from multiprocessing.pool import ThreadPool`-style bindings inside the cube modules."""
+    import catii.ccubes
+    import catii.xcubes
+
+    from . import conformance
+
+    for mod in (catii.ccubes, catii.xcubes):
+        for name, val in list(vars(mod).items()):
+            if val is conformance.REAL_POOL or val is ModelPool:
+                setattr(mod, name, pool)
 
 
 # ----------------------------------------------------------------------------- one execution / exploration
